@@ -96,12 +96,30 @@ def build(fault_line, pos, where):
             main = BASE[:5] + ['include inc/part.asm'] + BASE[5:]
             return ({'/proj/src/main.asm': '\n'.join(main), '/proj/src/inc/part.asm': '\n'.join(inc)},
                     '/proj/src/main.asm', '/proj/src/inc/part.asm', 2 + pos % 3)
+    if where == 'blanks':
+        # blank lines, whitespace-only lines, comment lines and indentation around everything:
+        # line numbers are those of the physical lines
+        lines = BASE[:pos] + [fault_line] + BASE[pos:]
+        phys, number = [], None
+        for i, l in enumerate(lines):
+            phys += ['', '   # note %d' % i, '\t'][:(i % 3) + 1]
+            if i == pos:
+                number = len(phys) + 1
+            phys.append(('    ' if i % 2 else '') + l)
+        return {}, '\n'.join(phys), '<string>', number
     if where == 'text':
         lines = BASE[:pos] + [fault_line] + BASE[pos:]
         return {}, '\n'.join(lines), '<string>', pos + 1
     if where == 'file':
         lines = BASE[:pos] + [fault_line] + BASE[pos:]
         return {'/proj/src/main.asm': '\n'.join(lines)}, '/proj/src/main.asm', '/proj/src/main.asm', pos + 1
+    if where == 'after-include':
+        # a valid file is included earlier in the same file: the error must still name the parent
+        ok_inc = ['# helper', 'helper:', 'addi x7, x7, 1']
+        pos = max(pos, 4)
+        main = BASE[:3] + ['include inc/ok.asm'] + BASE[3:pos] + [fault_line] + BASE[pos:]
+        return ({'/proj/src/main.asm': '\n'.join(main), '/proj/src/inc/ok.asm': '\n'.join(ok_inc)},
+                '/proj/src/main.asm', '/proj/src/main.asm', pos + 2)
     # included: the fault lives in inc/part.asm, included from the middle of main
     inc = ['# a part', 'part:', 'addi x7, x7, 1'][:1 + pos % 3] + [fault_line] + ['addi x7, x7, 2']
     main = BASE[:5] + ['include inc/part.asm'] + BASE[5:]
